@@ -10,8 +10,11 @@ cern_polygamma is replaced by its contract (contracts/harmonic_spec.py), so the 
                                  gamma_valence_qed(1) == 0 and gamma_ns_qed(1) == 0 for the minus modes
   (2) FHMRUVV N3LO parametrisations, for SYMBOLIC N and every nf they support: the central variation equals the mean of the down and up variations, for each of
       gg, gq, qg, ps, ns+, ns-, nsv and for the assembled N3LO singlet block.
-Not claimed: the sum rules beyond leading order and of the N3LO parametrisations -- they hold "within the documented accuracy of the parametrisation" only
-(numerical tolerances that the code does not state), and the limits N -> 1 of expressions with removable poles.
+  (3) beyond leading order (unpolarised space-like orders 2-4 with both N3LO parametrisations and every variation index, time-like and polarised orders 2-3, every nf):
+      the same sums formed from the exact terms the real code produces at N = 2 / N = 1 (harmonic sums in closed form), evaluated to 40 digits, vanish within the
+      accuracy documented for the expressions: 1e-5 of the largest entry at NLO (exact up to approximated Mellin transforms), 2e-3 at NNLO / N3LO (parametrisations
+      "accurate to one part in a thousand").  A finite domain, enumerated completely in the thorough tier (quick: variation indices 0-3).  Entries with a removable
+      pole at N = 1 (valence sea parts) are evaluated 1e-12 away from it.
 """
 from fractions import Fraction as Q
 
@@ -51,6 +54,56 @@ def replay():
     return bool(out), "; ".join(out[:4]) if out else "LO sum rules and the FHMRUVV mean rule hold natively"
 '''
 
+REPLAY_HO = '''
+def replay():
+    import warnings
+    import ekore.anomalous_dimensions.unpolarized.space_like as us
+    import ekore.anomalous_dimensions.unpolarized.time_like as ut
+    import ekore.anomalous_dimensions.polarized.space_like as ps
+    from eko import beta
+    warnings.simplefilter("ignore")
+    TOL = {2: 1e-5, 3: 2e-3, 4: 2e-3}
+    out = []
+    def rule(name, resid, scale, k):
+        sc = max(abs(x) for x in scale)
+        if abs(resid) > TOL[k] * sc: out.append(f"{name}: residual {abs(resid):.3e}, largest entry {sc:.3e}")
+    def at_one(f):
+        try:
+            return f(complex(1.0))
+        except ZeroDivisionError:
+            return f(complex(1.0 + 1e-7))
+    for nf in (3, 4, 5, 6):
+        for fh in (False, True):
+            for v in (range(20) if not fh else range(3)):
+                var = (min(v, 19), min(v, 15), min(v, 15), min(v, 6), v % 3, v % 3, v % 3) if not fh else (v,) * 7
+                try:
+                    g = us.gamma_singlet((4, 0), complex(2.0), nf, var, fh)
+                except NotImplementedError:
+                    continue
+                for k in (2, 3, 4):
+                    m = g[k - 1]
+                    rule(f"space-like order {k} nf={nf} fhmruvv={fh} var={v}: qq+gq at N=2", m[0, 0] + m[1, 0], (m[0, 0], m[1, 0]), k)
+                    rule(f"space-like order {k} nf={nf} fhmruvv={fh} var={v}: qg+gg at N=2", m[0, 1] + m[1, 1], (m[0, 1], m[1, 1]), k)
+                for mode in (10201, 10200):
+                    n1 = at_one(lambda n: us.gamma_ns((4, 0), mode, n, nf, var, fh))
+                    n2 = us.gamma_ns((4, 0), mode, complex(2.0), nf, var, fh)
+                    for k in (2, 3, 4): rule(f"space-like order {k} nf={nf} fhmruvv={fh} var={v}: mode {mode} at N=1", n1[k - 1], (n2[k - 1],), k)
+        t = ut.gamma_singlet((3, 0), complex(2.0), nf)
+        for k in (2, 3):
+            for r in (0, 1): rule(f"time-like order {k} nf={nf}: row {r} at N=2", 2 * nf * t[k - 1][r, 0] + t[k - 1][r, 1], (2 * nf * t[k - 1][r, 0], t[k - 1][r, 1]), k)
+        for mode in (10201, 10200):
+            n1 = at_one(lambda n: ut.gamma_ns((3, 0), mode, n, nf)); n2 = ut.gamma_ns((3, 0), mode, complex(2.0), nf)
+            for k in (2, 3): rule(f"time-like order {k} nf={nf}: mode {mode} at N=1", n1[k - 1], (n2[k - 1],), k)
+        pm = ps.gamma_singlet((3, 0), complex(1.0), nf)
+        for k in (2, 3):
+            b = beta.beta_qcd((k + 1, 0), nf)
+            rule(f"polarised order {k} nf={nf}: qg(1)", pm[k - 1][0, 1], (pm[k - 1][1, 1],), k)
+            rule(f"polarised order {k} nf={nf}: gg(1)+beta", pm[k - 1][1, 1] + b, (b,), k)
+        n1 = ps.gamma_ns((3, 0), 10101, complex(1.0), nf); n2 = ps.gamma_ns((3, 0), 10101, complex(2.0), nf)
+        for k in (2, 3): rule(f"polarised order {k} nf={nf}: ns+(1)", n1[k - 1], (n2[k - 1],), k)
+    return bool(out), "; ".join(out[:4]) if out else "higher-order sum rules hold natively within the stated tolerances"
+'''
+
 
 def run(chk):
     import importlib
@@ -63,13 +116,14 @@ def run(chk):
     from contracts import harmonic_spec
 
     rp = script(REPLAY, kind="sum_rule_oracle")
+    rp_ho = script(REPLAY_HO, kind="sum_rule_oracle")
     chk.under_contract(*[f"ekore.anomalous_dimensions.{v}:{f}" for v in ("unpolarized.space_like", "unpolarized.time_like", "polarized.space_like") for f in ("gamma_ns", "gamma_singlet")],
                        *[f"ekore.anomalous_dimensions.{v}.as1:*" for v in ("unpolarized.space_like", "unpolarized.time_like", "polarized.space_like")],
                        "ekore.anomalous_dimensions.unpolarized.space_like:gamma_singlet_qed", "ekore.anomalous_dimensions.unpolarized.space_like:gamma_valence_qed", "ekore.anomalous_dimensions.unpolarized.space_like:gamma_ns_qed",
                        "ekore.anomalous_dimensions.unpolarized.space_like.aem1:*", *[f"ekore.anomalous_dimensions.unpolarized.space_like.as4.fhmruvv:{f}" for f in ("gamma_gg", "gamma_gq", "gamma_qg", "gamma_ps", "gamma_nsp", "gamma_nsm", "gamma_nsv", "gamma_singlet")])
     chk.trust("contract of cern_polygamma (contracts/harmonic_spec.py): closed forms at integer / half-integer arguments", "time-like convention: second moments of the fragmentation functions D_Sigma = 2 nf, D_g = 1 (derivation in DESIGN.md, C25)")
-    chk.uncovered("sum rules beyond leading order and of the N3LO parametrisations: they hold within parametrisation accuracy only (no tolerance is documented in the code)",
-                  "N -> 1 limits of expressions with removable poles (e.g. NNLO valence)")
+    chk.uncovered("N -> 1 limits of expressions with removable poles are evaluated 1e-12 away from N = 1 (40 digits), not as limits",
+                  "QED-extended sum rules beyond the orders (1,1), (0,2) at N = 2 reduce to the QCD ones by C30 (embedding) and are not re-evaluated here")
     undo = harmonic_spec.install()
     try:
         # ---- (1) leading-order sum rules, exactly ----------------------------------------------------------------------------------------------
@@ -133,6 +187,86 @@ def run(chk):
                 chk.ground(f"C25.fhmruvv_mean.{name}[nf={nf}].not_available", True, fn=f"ekore.anomalous_dimensions.unpolarized.space_like.as4.fhmruvv:{name}", goal="nf not provided by the parametrisation (refused)", replay=rp)
 
         chk.parallel([(nf, name) for nf in (3, 4, 5) for name in ("gamma_gg", "gamma_gq", "gamma_qg", "gamma_ps", "gamma_nsp", "gamma_nsm", "gamma_nsv", "gamma_singlet")], worker)
+
+        # ---- (3) beyond leading order: exact terms of the real code at N = 2 / N = 1 evaluated to 40 digits, every nf, every N3LO variation ---------------------
+        # "within the documented accuracy of its parametrisation": NLO expressions are exact up to approximated Mellin transforms (1e-5 of the largest entry);
+        # the NNLO / N3LO parametrisations are documented as accurate to one part in a thousand (2e-3 of the largest entry allowed).
+        TOL = {2: 1e-5, 3: 2e-3, 4: 2e-3}
+        NEAR1 = Q(10**12 + 1, 10**12)          # removable poles at N = 1 (valence sea parts): evaluated 1e-12 away, 40 digits
+
+        def val(x):
+            return complex(T.evalmp(T.lift(x), {}, 40))
+
+        def at_one(f):
+            try:
+                return f(Q(1)), "N=1"
+            except ZeroDivisionError:
+                return f(NEAR1), "N=1+1e-12"
+
+        def rule(chk, name, resid, scale, k, fn, goal):
+            r, sc = abs(val(resid)), max(abs(val(x)) for x in scale)
+            chk.ground(name, r <= TOL[k] * max(sc, 1e-30), fn=fn, replay=rp_ho, backend="exact-eval+mpmath", goal=goal + f" within {TOL[k]:.0e} of the largest entry", detail=f"residual {r:.3e}, largest entry {sc:.3e}")
+
+        def worker3(chk, task):
+            fam, nf, usefh, v = task
+            if fam == "us":
+                var = (min(v, 19), min(v, 15), min(v, 15), min(v, 6), v % 3, v % 3, v % 3) if not usefh else (v,) * 7
+                lab = f"{'fhmruvv' if usefh else 'n3lo'},nf={nf},var={v}"
+                fn = "ekore.anomalous_dimensions.unpolarized.space_like:gamma_singlet"
+                try:
+                    g = us.gamma_singlet((4, 0), Q(2), nf, var, usefh)
+                except NotImplementedError:
+                    chk.ground(f"C25.higher.us[{lab}].not_available", True, fn=fn, goal="nf not provided by the parametrisation")
+                    return
+                for k in range(2, 5):
+                    if v and k < 4:
+                        continue
+                    m = g[k - 1]
+                    tag = f"C25.higher.us[order={k},{lab}]" if k == 4 else f"C25.higher.us[order={k},nf={nf}]"
+                    if usefh and k < 4:
+                        continue
+                    rule(chk, f"{tag}.momentum.quark_column", m[0, 0] + m[1, 0], (m[0, 0], m[1, 0]), k, fn, "gamma_qq(2) + gamma_gq(2) == 0")
+                    rule(chk, f"{tag}.momentum.gluon_column", m[0, 1] + m[1, 1], (m[0, 1], m[1, 1]), k, fn, "gamma_qg(2) + gamma_gg(2) == 0")
+                fn = "ekore.anomalous_dimensions.unpolarized.space_like:gamma_ns"
+                for mode, ml in ((10201, "ns-"), (10200, "nsV")):
+                    n1, where = at_one(lambda n: us.gamma_ns((4, 0), mode, n, nf, var, usefh))
+                    n2 = us.gamma_ns((4, 0), mode, Q(2), nf, var, usefh)
+                    for k in range(2, 5):
+                        if (v or usefh) and k < 4:
+                            continue
+                        tag = f"C25.higher.us[order={k},{lab}]" if k == 4 else f"C25.higher.us[order={k},nf={nf}]"
+                        rule(chk, f"{tag}.quark_number.{ml}", n1[k - 1], (n2[k - 1],), k, fn, f"gamma_{ml}({where}) == 0 (scale: its second moment)")
+            elif fam == "ut":
+                fn = "ekore.anomalous_dimensions.unpolarized.time_like:gamma_singlet"
+                t = ut.gamma_singlet((3, 0), Q(2), nf)
+                for k in (2, 3):
+                    m = t[k - 1]
+                    for r, rl in ((0, "quark_row"), (1, "gluon_row")):
+                        rule(chk, f"C25.higher.ut[order={k},nf={nf}].momentum.{rl}", 2 * nf * m[r, 0] + m[r, 1], (2 * nf * m[r, 0], m[r, 1]), k, fn, "2 nf gamma[r, Sigma](2) + gamma[r, g](2) == 0")
+                fn = "ekore.anomalous_dimensions.unpolarized.time_like:gamma_ns"
+                for mode, ml in ((10201, "ns-"), (10200, "nsV")):
+                    n1, where = at_one(lambda n: ut.gamma_ns((3, 0), mode, n, nf))
+                    n2 = ut.gamma_ns((3, 0), mode, Q(2), nf)
+                    for k in (2, 3):
+                        rule(chk, f"C25.higher.ut[order={k},nf={nf}].quark_number.{ml}", n1[k - 1], (n2[k - 1],), k, fn, f"gamma_{ml}({where}) == 0 (scale: its second moment)")
+            else:
+                fn = "ekore.anomalous_dimensions.polarized.space_like:gamma_singlet"
+                pm = ps.gamma_singlet((3, 0), Q(1), nf)
+                for k in (2, 3):
+                    m = pm[k - 1]
+                    b = beta.beta_qcd((k + 1, 0), nf)
+                    rule(chk, f"C25.higher.ps[order={k},nf={nf}].qg_first_moment", m[0, 1], (m[1, 1],), k, fn, "polarised gamma_qg(1) == 0 (scale: gamma_gg(1))")
+                    rule(chk, f"C25.higher.ps[order={k},nf={nf}].gg_first_moment", m[1, 1] + b, (b,), k, fn, f"polarised gamma_gg(1) == -beta_{k - 1}")
+                fn = "ekore.anomalous_dimensions.polarized.space_like:gamma_ns"
+                n1 = ps.gamma_ns((3, 0), 10101, Q(1), nf)
+                n2 = ps.gamma_ns((3, 0), 10101, Q(2), nf)
+                for k in (2, 3):
+                    rule(chk, f"C25.higher.ps[order={k},nf={nf}].axial_charge", n1[k - 1], (n2[k - 1],), k, fn, "polarised gamma_ns+(1) == 0 (scale: its second moment)")
+
+        nv = 20 if chk.tier != "quick" else 4
+        tasks = [("us", nf, False, v) for nf in (3, 4, 5, 6) for v in range(nv)] + [("us", nf, True, v) for nf in (3, 4, 5) for v in (0, 1, 2)]
+        tasks += [("ut", nf, None, 0) for nf in (3, 4, 5, 6)] + [("ps", nf, None, 0) for nf in (3, 4, 5, 6)]
+        chk.parallel(tasks, worker3)
     finally:
         undo()
     chk.extra["exhaustive"] = True
